@@ -1,14 +1,6 @@
 //! rv — property-based verification harness for rubato (see /verif/DESIGN.md).
 #![allow(dead_code, unused_parens)]
-mod alloc;
-mod cfg;
-mod dynres;
-mod engine;
-mod hist;
-mod model;
-mod num;
-mod props;
-mod signal;
+use rv::{alloc, engine, props};
 
 use engine::{Property, Tier};
 use std::path::Path;
@@ -94,6 +86,23 @@ fn main() {
             let n: usize = args.get(3).and_then(|s| s.parse().ok()).unwrap_or(5);
             let s: u64 = args.get(4).and_then(|s| s.parse().ok()).unwrap_or(seed);
             with_prop(&id, &mut |p| p.gen(n, s, Tier::Quick))
+        }
+        "fuzzcase" => {
+            // rv fuzzcase <hist|kernel> <file>: decode a fuzzer input into the JSON case it stands for
+            let file = args.get(3).cloned().unwrap_or_else(|| usage());
+            let data = std::fs::read(&file).expect("read input");
+            match id.as_str() {
+                "hist" => match rv::fuzz::hist_case(&data) {
+                    Some(c) => println!("{}", serde_json::to_string(&c).unwrap()),
+                    None => std::process::exit(3),
+                },
+                "kernel" => match rv::fuzz::kernel_case(&data) {
+                    Some(c) => println!("{}", serde_json::to_string(&rv::props::c15::Case::Kernel(c)).unwrap()),
+                    None => std::process::exit(3),
+                },
+                _ => usage(),
+            }
+            true
         }
         _ => usage(),
     };
